@@ -107,6 +107,10 @@ type driveResult struct {
 // every call 0<=n<=len(dst), canaries beyond n intact, and at the end that no earlier
 // delivered frame changed. maxCalls bounds the run (a reader that never ends is reported).
 func driveReader(ts []*colType, r sliceio.Reader, sizes []int, rnd *vf.Rand, maxCalls int) (res driveResult) {
+	return driveReaderOpt(ts, r, sizes, rnd, maxCalls, true)
+}
+
+func driveReaderOpt(ts []*colType, r sliceio.Reader, sizes []int, rnd *vf.Rand, maxCalls int, canary bool) (res driveResult) {
 	if len(sizes) == 0 {
 		sizes = []int{128}
 	}
@@ -129,7 +133,7 @@ func driveReader(ts []*colType, r sliceio.Reader, sizes []int, rnd *vf.Rand, max
 		got := readCols(cols)
 		// The contents of the destination after a failed call are unspecified (as for io.Reader);
 		// the canaries are checked for calls that succeed or end the stream.
-		for i := n; i < sz && (err == nil || err == sliceio.EOF); i++ {
+		for i := n; canary && i < sz && (err == nil || err == sliceio.EOF); i++ {
 			if !rowEq(got[i], can[i], true) {
 				res.bad, res.what = "wrote-beyond-n", fmt.Sprintf("call %d: Read returned n=%d but row %d of the destination changed from %s to %s", call, n, i, rowStr(can[i]), rowStr(got[i]))
 				return
